@@ -218,6 +218,52 @@ def GoVal.toStr : GoVal → Option Bytes
   | .float _ _ _ rOwn => some rOwn
   | _ => none      -- composite: fmt.Sprintf("%v") — not modelled (callers treat `none` as out of scope)
 
+/-! ### fingerprint: names a value in a residual query (`fmt.Sprintf("%v", v)` of composites)
+
+Injective up to what the wire format carries (pointer identity is not carried: the harness answers
+"unknown" when two values with one fingerprint render differently).  Map entries are sorted so that
+the fingerprint does not depend on the iteration order. -/
+
+def lenPref (s : Bytes) : Bytes := natToBytes s.length ++ [58] ++ s
+
+def bytesLe : Bytes → Bytes → Bool
+  | [], _ => true
+  | _ :: _, [] => false
+  | a :: x, c :: y => a < c || (a == c && bytesLe x y)
+
+def insertBytesSorted (x : Bytes) : List Bytes → List Bytes
+  | [] => [x]
+  | y :: ys => if bytesLe x y then x :: y :: ys else y :: insertBytesSorted x ys
+
+def sortBytes (l : List Bytes) : List Bytes := l.foldr insertBytesSorted []
+
+mutual
+def GoVal.fp : GoVal → Bytes
+  | .str s => [115] ++ lenPref s
+  | .bool v => if v then b! "b1" else b! "b0"
+  | .int bits z => [105] ++ natToBytes bits ++ [58] ++ intToBytes z ++ [59]
+  | .uint bits n => [117] ++ natToBytes bits ++ [58] ++ natToBytes n ++ [59]
+  | .float bits _ _ rOwn => [102] ++ natToBytes bits ++ [58] ++ rOwn ++ [59]
+  | .ptr t none => [112] ++ lenPref t ++ [110]
+  | .ptr t (some v) => [112] ++ lenPref t ++ v.fp
+  | .iface none => b! "In"
+  | .iface (some v) => [73] ++ v.fp
+  | .slice t _ isNil es => [83] ++ lenPref t ++ (if isNil then [110] else [118]) ++ [91] ++ es.fp ++ [93]
+  | .array t _ es => [65] ++ lenPref t ++ [91] ++ es.fp ++ [93]
+  | .map t _ isNil es => [77] ++ lenPref t ++ (if isNil then [110] else [118]) ++ [123] ++ (sortBytes es.fps).flatten ++ [125]
+  | .struct t _ _ fs => [84] ++ lenPref t ++ [123] ++ fs.fp ++ [125]
+  | .other kind t _ zero => [79] ++ natToBytes kind ++ [58] ++ lenPref t ++ (if zero then [122] else [118])
+def GoVals.fp : GoVals → Bytes
+  | .nil => []
+  | .cons v vs => v.fp ++ [44] ++ vs.fp
+def Entries.fps : Entries → List Bytes
+  | .nil => []
+  | .cons k v es => (k.fp ++ [61] ++ v.fp ++ [44]) :: es.fps
+def Fields.fp : Fields → Bytes
+  | .nil => []
+  | .cons name _ _ _ v fs => lenPref name ++ v.fp ++ [44] ++ fs.fp
+end
+
 /-- `RemoveValuePtr`: strips pointers; `none` is the invalid `reflect.Value` (nil pointer) -/
 def GoVal.stripPtr : GoVal → Option GoVal
   | .ptr _ none => none
